@@ -4,6 +4,7 @@
   (partial for those); the theorems cover the oracle's reward distribution as `RewardBallotWinners` computes it.
 -/
 import SettlusModel.Proofs.Pay
+import SettlusModel.Proofs.Dec
 namespace Settlus.C14
 open Settlus
 
@@ -146,5 +147,20 @@ example :
     let res := rewardDenom [(0, 1)] vals 1 rr "u".toList
     res.bank .pool "u".toList = 0 ∧ res.bank .distr "u".toList = 5 ∧
     res.distr.outstanding 0 "u".toList = 2500000000000000000 ∧ res.distr.community "u".toList = 2500000000000000000 := by decide
+
+
+/-! ### the amounts the code computes -/
+
+/-- the reward expression of `RewardBallotWinners`, translated from the source on every run, is the model's `rewardOf`
+(proportional share, the power ratio truncated at 18 digits, the product truncated to an integer) -/
+theorem reward_is_the_code (pool w W : Nat) :
+    GenDec.rewardCoin (SDK.decOfInt (pool : Int)) (w : Int) (W : Int) = ((rewardOf pool w W : Nat) : Int) := reward_translated pool w W
+
+/-- the pro-bono contribution (`MulDecTruncate`) and the credited remainder, translated from the source, are the amounts the
+model's `rewardOne` credits to the community pool and to the validator -/
+theorem probono_is_the_code (r rate : Nat) (hr : rate ≤ one18) :
+    GenDec.probonoContribution (r : Int) (rate : Int) = ((r * rate : Nat) : Int) ∧
+    GenDec.finalReward (r : Int) (GenDec.probonoContribution (r : Int) (rate : Int)) = ((r * one18 - r * rate : Nat) : Int) :=
+  probono_translated r rate hr
 
 end Settlus.C14
